@@ -20,7 +20,11 @@ pub mod c10;
 #[cfg(kani)]
 pub mod c11;
 #[cfg(kani)]
+pub mod c14;
+#[cfg(kani)]
 pub mod c16;
+#[cfg(kani)]
+pub mod c17;
 #[cfg(kani)]
 pub mod c18;
 #[cfg(kani)]
